@@ -1,4 +1,4 @@
-"""C08 — ports act only within their role; at most one port steers the clock (ROLE-1..5)."""
+"""C08 — ports act only within their role; at most one port steers the clock (ROLE-1..6)."""
 from sa import mir, dataflow as df, conds as cnd, fsm
 from sa.stores import stores
 from sa.callgraph import callgraph
@@ -20,7 +20,9 @@ EXPLANATION = (
     "set_forced_port_state the path that skips filter replacement + demobilize is taken only when the OLD state "
     "is neither Slave nor Faulty and the new state is not Faulty (old/new resolved relative to the mem::swap). "
     "ROLE-5: best_local_announce_message_for_bmca can return the port's Erbest only when !master_only and the "
-    "port is not Faulty (master-only ports never own Ebest, hence never get S1)."
+    "port is not Faulty (master-only ports never own Ebest, hence never get S1). ROLE-6: every construction of "
+    "RecommendedState::S1 is a result row conditional on whole-record equality of the two BestAnnounceMessage "
+    "parameters, and that equality (PartialEq of BestAnnounceMessage) compares message and receiving port identity."
 )
 NOT_DECIDED = "'at most one port is slave at any moment' (depends on the run-time equality Ebest == Erbest of one port only)"
 
@@ -40,6 +42,8 @@ def run(ctx):
     rep.rule("ROLE-3", "only filters and clock wrappers steer the clock; samples only in Slave", floor=8)
     rep.rule("ROLE-4", "leaving Slave/Faulty (or entering Faulty) always replaces and demobilizes the filter", floor=1)
     rep.rule("ROLE-5", "master-only and faulty ports are excluded from Ebest", floor=1)
+    rep.rule("ROLE-6", "decision code S1 is produced only where Ebest and the port's Erbest are equal as whole records "
+                       "(incl. the receiving port identity)", floor=2)
 
     # ---- ROLE-1
     for b in prog.bodies.values():
@@ -175,6 +179,67 @@ def run(ctx):
         check_exclusion_gate(rep, prog, bl, "ROLE-5")
     except AnchorMissing as e:
         rep.anchor_missing("ROLE-5", str(e))
+
+    # ---- ROLE-6
+    check_role6(rep, prog)
+
+
+def check_role6(rep, prog):
+    import re
+    sites = 0
+    for b in sorted(prog.bodies.values(), key=lambda x: x.key):
+        if b.unit.name != "statime-lib" or b.is_test():
+            continue
+        builds = False
+        for bi, si, st in mir.iter_stmts(b):
+            if st["k"] == "assign" and st["r"]["k"] == "agg" and st["r"].get("ak") == "adt" and \
+                    st["r"].get("name", "").endswith("RecommendedState") and st["r"].get("variant") == "S1":
+                builds = True
+        if not builds:
+            continue
+        sites += 1
+        # the two BestAnnounceMessage parameters
+        params = [i for i in range(1, b.argc + 1) if "BestAnnounceMessage" in b.ty(b.locals[i]["ty"])["s"]]
+        rows = [(r, w) for (r, w) in cnd.result_rows(prog, b, positional=True) if r.startswith("S1(")]
+        for (r, w) in rows:
+            ok = len(params) == 2 and ("arg%d eq arg%d" % (params[0], params[1]) in w or
+                                       "arg%d eq arg%d" % (params[1], params[0]) in w)
+            m = re.fullmatch(r"S1\(arg(\d+)\.message\)", r)
+            ok = ok and m is not None and int(m.group(1)) in params
+            if ok:
+                rep.ok("ROLE-6", b.key, "%s <= %s" % (r, "; ".join(w)), where=b.loc())
+            else:
+                rep.violation("ROLE-6", b.key, "S1 row", "S1 is produced as `%s` under [%s]: not conditional on Ebest == "
+                              "Erbest as whole records (message, age AND receiving port identity), so a port that did "
+                              "not receive Ebest can be told to become slave (several slave ports / a master-only "
+                              "port slave)" % (r, "; ".join(w)), where=b.loc())
+        if not rows:
+            rep.violation("ROLE-6", b.key, "S1 row", "S1 is constructed but no result row could be extracted", where=b.loc())
+    if sites == 0:
+        rep.anchor_missing("ROLE-6", "no construction of RecommendedState::S1 found in statime-lib")
+    # record equality includes the receiver identity
+    eqs = [b for b in prog.find(name="eq", crate="statime-lib") if "<BestAnnounceMessage as" in b.key and "PartialEq" in b.key]
+    if len(eqs) != 1:
+        rep.anchor_missing("ROLE-6", "PartialEq impl of BestAnnounceMessage not found (%d)" % len(eqs))
+        return
+    e = eqs[0]
+    pv = df.Prov(e)
+    fields = set()
+    for bi, t, c in mir.iter_calls(e):
+        a = [df.canon(pv.op_tree(x), e) for x in t["args"]]
+        if c["name"] == "eq" and len(a) == 2 and a[0].startswith("self.") and a[1] == "other." + a[0][5:]:
+            fields.add(a[0][5:])
+    for bi, si, st in mir.iter_stmts(e):
+        if st["k"] == "assign" and st["r"]["k"] == "bin" and st["r"]["op"] == "Eq":
+            a = [df.canon(pv.op_tree(st["r"][x]), e) for x in ("a", "b")]
+            if a[0].startswith("self.") and a[1] == "other." + a[0][5:]:
+                fields.add(a[0][5:])
+    need = {"message", "identity"}
+    if need <= fields:
+        rep.ok("ROLE-6", e.key, "equality compares %s" % sorted(fields), where=e.loc())
+    else:
+        rep.violation("ROLE-6", e.key, "record equality", "BestAnnounceMessage equality compares only %s: without `identity` "
+                      "Ebest == Erbest holds for every port that heard the same Announce" % sorted(fields), where=e.loc())
 
 
 FILTER_TYPES = ("KalmanFilter", "BasicFilter", "InnerFilter", "BaseFilter")
